@@ -9,6 +9,17 @@ ALL_DATES = (DATE_MIN, DATE_MAX)
 CLK = "2024 3 15 10 20 30 400000"
 
 
+SPEC_OPS = {"F.try_new", "F.try_new_idx", "D.trunc", "D.round", "TS.trunc", "TS.round", "OD.trunc", "OD.round", "D.extract",
+            "D.dow", "D.try_from_ymd", "D.last_day"}
+
+
+def spec_supported(line):
+    """Does the driver's --spec mode (independent Lean Spec) answer this request?"""
+    w = line.split(" ")
+    op = w[5] if w[0] == "@range" else w[0]
+    return op in SPEC_OPS
+
+
 class Stream:
     def __init__(self, name, lines, modes=("off",), oracles=(oracle_no_panic,), exhaustive=False, spec=False):
         self.name, self.lines, self.modes, self.oracles, self.exhaustive = name, lines, modes, list(oracles), exhaustive
@@ -135,7 +146,7 @@ def streams_for(pid, tier, rng):
 
     if pid == "C01":
         for op in ["D.extract %", "D.dow %", "D.try_from_days %", "D.acc %"]:
-            S.append(Stream("all-dates " + op, [rng_dates(op)], exhaustive=True))
+            S.append(Stream("all-dates " + op, [rng_dates(op)], exhaustive=True, spec=op in ("D.extract %", "D.dow %")))
         S.append(Stream("days outside the range", ["D.try_from_days %d" % k for k in
                         list(range(DATE_MIN - 12, DATE_MIN + 3)) + list(range(DATE_MAX - 2, DATE_MAX + 13)) +
                         [-(1 << 31), (1 << 31) - 1, -(1 << 31) + 1, 0]]))
@@ -146,7 +157,7 @@ def streams_for(pid, tier, rng):
                 grid.append("@range -1 10001 %d %d D.try_from_ymd %% %d %d" % (ystep, BLK, m, d))
                 if thorough or (m + d) % 3 == 0:
                     grid.append("@range -1 10001 %d %d D.is_valid %% %d %d" % (ystep, BLK, m, d))
-        S.append(Stream("ymd validity grid", grid, exhaustive=thorough))
+        S.append(Stream("ymd validity grid", grid, exhaustive=thorough, spec=True))
         S.append(ops_stream("ymd extremes", rng, pools, ["D.try_from_ymd", "D.is_valid", "D.cmp"], cap))
     elif pid == "C02":
         S.append(ops_stream("every value-returning op x pools", rng, pools,
@@ -275,7 +286,7 @@ def streams_for(pid, tier, rng):
         for k in ks[:8]:
             lines.append("@range %d %d %d %d D.sub_ym %% %d" % (DATE_MIN, DATE_MAX, 1 if thorough else 5, BLK, k))
         lines.append(rng_dates("D.last_day %"))
-        S.append(Stream("all dates x month offsets", lines, exhaustive=thorough))
+        S.append(Stream("all dates x month offsets", lines, exhaustive=thorough, spec=True))
         lines = []
         for t in [0, 1, 43200000000, 86399999999]:
             lines.append("@range %d %d %d %d TS.last_day %%" % (TS_MIN + t, TS_MAX, USECS_PER_DAY, BLK))
@@ -289,25 +300,27 @@ def streams_for(pid, tier, rng):
     elif pid in ("C10", "C11"):
         kind = "trunc" if pid == "C10" else "round"
         lines = [rng_dates("D.%s %s %%" % (kind, u)) for u in UNITS]
-        S.append(Stream("all dates x 12 units (Date)", lines, exhaustive=True))
+        S.append(Stream("all dates x 12 units (Date)", lines, exhaustive=True, spec=True))
         lines = []
         times = [0, 1, 43199999999, 43200000000, 86399999999, 1799999999, 1800000000, 29999999, 30000000,
                  84599999999, 84600000000, 86369999999, 86370000000]
         for u in UNITS:
             for t in (times if thorough else times[:5] + [1800000000, 30000000, 84600000000, 86370000000]):
-                lines.append("@range %d %d %d %d TS.%s %s %%" % (TS_MIN + t, TS_MAX, USECS_PER_DAY * (1 if thorough else 3), BLK, kind, u))
-        S.append(Stream("all dates x critical times (Timestamp)", lines, exhaustive=thorough))
+                lines.append("@range %d %d %d %d TS.%s %s %%" % (TS_MIN + t, TS_MAX, USECS_PER_DAY * (1 if thorough else 11), BLK, kind, u))
+        S.append(Stream("all dates x critical times (Timestamp)", lines, exhaustive=thorough, spec=True))
         lines = []
         for u in UNITS:
             for t in [0, 43199000000, 43200000000, 86399000000]:
-                lines.append("@range %d %d %d %d OD.%s %s %%" % (TS_MIN + t, TS_MAX, USECS_PER_DAY * (1 if thorough else 5), BLK, kind, u))
-        S.append(Stream("all dates x critical times (OracleDate)", lines, exhaustive=thorough))
+                lines.append("@range %d %d %d %d OD.%s %s %%" % (TS_MIN + t, TS_MAX, USECS_PER_DAY * (1 if thorough else 13), BLK, kind, u))
+        S.append(Stream("all dates x critical times (OracleDate)", lines, exhaustive=thorough, spec=True))
         lines = []
         for d in [DATE_MIN, DATE_MIN + 3, -1, 0, days(2021, 12, 31), days(2000, 2, 29), DATE_MAX]:
             for u in UNITS:
                 lines.append("@range %d %d 1000000 %d TS.%s %s %%" % (d * USECS_PER_DAY, d * USECS_PER_DAY + USECS_PER_DAY - 1, BLK, kind, u))
-        S.append(Stream("every second of sampled days", lines, exhaustive=True))
-        S.append(ops_stream("pools", rng, pools, ["D." + kind, "TS." + kind, "OD." + kind], cap * 2))
+        S.append(Stream("every second of sampled days", lines, exhaustive=True, spec=True))
+        st = ops_stream("pools", rng, pools, ["D." + kind, "TS." + kind, "OD." + kind], cap * 2)
+        st.spec = True
+        S.append(st)
     elif pid == "C12":
         lines = []
         ivs = [0, 1, -1, USECS_PER_DAY - 1, -USECS_PER_DAY + 1, USECS_PER_DAY, -USECS_PER_DAY, 5 * USECS_PER_DAY + 1,
@@ -383,6 +396,19 @@ def streams_for(pid, tier, rng):
                 lines.append("@range %d %d %d %d TS.%s %s %%" % (TS_MIN, TS_MAX, USECS_PER_DAY, BLK, kind, u))
                 lines.append("@range %d %d %d %d OD.%s %s %%" % (TS_MIN, TS_MAX, USECS_PER_DAY, BLK, kind, u))
         S.append(Stream("all dates through three types", lines, exhaustive=True))
+        # implementation-vs-oracle: the same operation through Date, Timestamp (midnight) and OracleDate must correspond
+        tl = []
+        dstep = 13 if thorough else 97
+        for d in list(range(DATE_MIN, DATE_MAX + 1, dstep)) + pools.get("D"):
+            for u in UNITS:
+                for kind in ("trunc", "round"):
+                    tl.append("D.%s %s %d" % (kind, u, d))
+                    tl.append("TS.%s %s %d" % (kind, u, d * USECS_PER_DAY))
+                    tl.append("OD.%s %s %d" % (kind, u, d * USECS_PER_DAY))
+            tl.append("D.last_day %d" % d)
+            tl.append("TS.last_day %d" % (d * USECS_PER_DAY))
+            tl.append("OD.last_day %d" % (d * USECS_PER_DAY))
+        S.append(Stream("same operation through three types (triples)", tl, oracles=(oracle_no_panic, make_triple_oracle())))
         S.append(ops_stream("mixed comparisons and shared ops", rng, pools,
                             ["D.cmp_TS", "D.cmp_OD", "TS.cmp_D", "TS.cmp_OD", "OD.cmp_TS", "OD.cmp_D", "D.to_TS", "OD.from_TS",
                              "OD.to_TS", "D.last_day", "TS.last_day", "OD.last_day", "D.add_ym", "TS.add_ym", "OD.add_ym",
@@ -425,6 +451,27 @@ def streams_for(pid, tier, rng):
     else:
         raise ValueError("unknown property " + pid)
     return [s for s in S if s.lines]
+
+
+def make_triple_oracle():
+    """Stateful oracle for line triples D.op / TS.op / OD.op on the same date: TS and OD results must be the Date result
+    at midnight (or the same error)."""
+    state = {"d": None}
+
+    def orc(req, out):
+        w = req.split(" ", 1)[0]
+        if w.startswith("D."):
+            state["d"] = out
+            return None
+        exp = state["d"]
+        if exp is None:
+            return None
+        if exp.startswith("ok "):
+            exp = "ok %d" % (int(exp.split(" ")[1]) * USECS_PER_DAY)
+        if out != exp:
+            return "through Date the result is %s (expected %s here)" % (state["d"], exp)
+        return None
+    return orc
 
 
 def f64_lines(rng, pools, n):
